@@ -1,9 +1,12 @@
 (* C20 - static tie between the access table and the source.
 
    Gen/ConcWriteSets.v is regenerated on every run by harness/cmd/gen (target conc, go/parser + go/types) from the
-   CURRENT source: for every exported entry point of sm2, sm3, sm4, x509 and the Config / session cache / loader
-   part of gmtls, the writes to shared state (package variables, fields of the shared object types, elements behind
-   them) reachable through calls inside these packages, with the locks held.  This file maps source names to
+   CURRENT source: for every exported entry point of sm2, sm3, sm4, x509 and the Config / session cache / loader /
+   Conn part of gmtls, the writes to shared state (package variables, fields of the shared object types - for a Conn
+   every field, with the halfConn / block / hash objects behind c.in, c.out, c.rawInput, c.input, c.hand attributed
+   to the field they are reached through - and elements behind them) reachable through calls inside these packages,
+   with the locks held (c.in / c.out / handshakeMutex by name of the Conn field, "atomic" for sync/atomic operations,
+   "once:gmtls.Conn.Handshake" for everything inside Conn.Handshake).  This file maps source names to
    table locations / mutexes / Once objects and entry points to table rows (definitions only; the two checks are
    proved in TableProofs.v):
      covers        every generated write is a Wr of (one of) the row(s) of its entry point under the same mutexes,
@@ -12,8 +15,10 @@
    A change that makes some exported function write something new (a new lazily initialised field, memoisation into
    a shared map, reuse of a shared slice's storage) changes the generated file and breaks [table_covers_source_writes]
    at build time, whatever the race detector happens to observe.
-   Outside this tie: gmtls.Conn and the handshake code (rows conn_*, default_cipher_suites), reads, and the precision
-   limits listed at the top of harness/cmd/gen/target_conc.go. *)
+   What the translator cannot attribute (calls through function values and through interfaces it has no summary for)
+   is listed in gen_unattributed, one name per distinct callee expression / interface method, and the callees it is
+   told to skip in gen_excluded; [unattributed_ok] bounds both lists by the hand-reviewed lists below.
+   Outside this tie: reads, and the precision limits listed at the top of harness/cmd/gen/target_conc.go. *)
 From Coq Require Import List Arith Bool String.
 From GmsmVerif Require Import Conc.AccessModel Conc.NestModel Conc.AccessTable Gen.ConcWriteSets.
 Import ListNotations.
@@ -25,6 +30,17 @@ Definition loc_of_src (n : string) : option nat :=
   else if String.prefix "gmtls.Config." n then Some L_cfg_fields
   else if String.prefix "gmtls.GMSupport." n then Some L_cfg_fields
   else if String.prefix "gmtls.lruSessionCache." n then Some L_lru
+  else if String.eqb n "gmtls.Conn.activeCall" then Some L_conn_ac
+  else if String.eqb n "gmtls.Conn.handshakeStatus" then Some L_conn_st
+  else if existsb (fun p => String.prefix p n)
+                  ["gmtls.Conn.in>"; "gmtls.Conn.rawInput"; "gmtls.Conn.input"; "gmtls.Conn.hand>"; "gmtls.Conn.warnCount"]
+          || String.eqb n "gmtls.Conn.hand" || String.eqb n "gmtls.Conn.hand[]" then Some L_conn_in
+  else if existsb (fun p => String.prefix p n)
+                  ["gmtls.Conn.out>"; "gmtls.Conn.sendBuf"; "gmtls.Conn.tmp"; "gmtls.Conn.bytesSent"; "gmtls.Conn.packetsSent";
+                   "gmtls.Conn.closeNotifySent"; "gmtls.Conn.closeNotifyErr"] then Some L_conn_out
+  else if String.prefix "gmtls.Conn." n then Some L_conn_hs      (* every other field: only the handshake may write it *)
+  else if String.eqb n "gmtls.varDefaultCipherSuites" || String.eqb n "gmtls.varDefaultCipherSuites[]" then Some L_suites
+  else if String.eqb n "gmtls.certCAs" || String.eqb n "gmtls.certCAs[]" then Some L_gmcas
   else if String.eqb n "sm2.sm2P256" || String.eqb n "sm2.sm2P256[]" then Some L_curve
   else if String.eqb n "sm4.IV" || String.eqb n "sm4.IV[]" then Some L_sm4_IV
   else if String.eqb n "sm4.Sm4Cipher.subkeys" || String.eqb n "sm4.Sm4Cipher.subkeys[]" then Some L_sm4_subkeys
@@ -37,13 +53,22 @@ Definition loc_of_src (n : string) : option nat :=
 
 Inductive lockref := LMutex (m : nat) | LOnce (o : nat).
 
-Definition lock_of_src (n : string) : option lockref :=
+(* l: the location written ("atomic" names the virtual mutex of that atomic variable) *)
+Definition lock_of_src (l : nat) (n : string) : option lockref :=
   if String.eqb n "gmtls.Config.mutex" then Some (LMutex M_cfg)
   else if String.eqb n "gmtls.lruSessionCache.Mutex" then Some (LMutex M_lru)
+  else if String.eqb n "gmtls.Conn.in>gmtls.halfConn.Mutex" then Some (LMutex M_in)
+  else if String.eqb n "gmtls.Conn.out>gmtls.halfConn.Mutex" then Some (LMutex M_out)
+  else if String.eqb n "gmtls.Conn.handshakeMutex" then Some (LMutex M_hs)
+  else if String.eqb n "atomic" then
+    (if Nat.eqb l L_conn_ac then Some (LMutex A_ac) else if Nat.eqb l L_conn_st then Some (LMutex A_st) else None)
   else if String.eqb n "once:sm2.initonce" then Some (LOnce O_curve)
   else if String.eqb n "once:gmtls.Config.serverInitOnce" then Some (LOnce O_cfg)
   else if String.eqb n "once:x509.once" then Some (LOnce O_sysroots)
-  else None.       (* read locks ("R:..."), "atomic" and unknown mutexes cover no write of the tied rows *)
+  else if String.eqb n "once:gmtls.Conn.Handshake" then Some (LOnce O_conn_hs)
+  else if String.eqb n "once:gmtls.once" then Some (LOnce O_suites)
+  else if String.eqb n "once:gmtls.initonce" then Some (LOnce O_gmcas)
+  else None.       (* read locks ("R:...") and unknown mutexes cover no write of the tied rows *)
 
 (* entry point -> the table rows that describe it; an entry point that is not listed may only initialise the curve *)
 Definition rows_of_entry (e : string) : list op :=
@@ -58,12 +83,17 @@ Definition rows_of_entry (e : string) : list op :=
           || String.eqb e "x509.CreateCertificateToPem" then [x509_cert_fill]
   else if String.eqb e "x509.Certificate.Verify" then [cert_verify; cert_verify_sysroots]
   else if String.eqb e "x509.RegisterHash" then [x509_register_hash]
+  else if String.eqb e "gmtls.Conn.Handshake" then [conn_handshake]
+  else if String.eqb e "gmtls.Conn.Read" then [conn_read]
+  else if String.eqb e "gmtls.Conn.Write" then [conn_write]
+  else if String.eqb e "gmtls.Conn.Close" || String.eqb e "gmtls.Conn.CloseWrite" then [conn_close]
+  else if String.prefix "gmtls.Conn." e then [conn_state]     (* ConnectionState, OCSPResponse, VerifyHostname, addresses, deadlines *)
   else [curve_first_use].
 
-Fixpoint mutexes_of (ls : list string) : option (list nat) :=
+Fixpoint mutexes_of (l : nat) (ls : list string) : option (list nat) :=
   match ls with
   | [] => Some []
-  | l :: r => match lock_of_src l, mutexes_of r with
+  | x :: r => match lock_of_src l x, mutexes_of l r with
               | Some (LMutex m), Some ms => Some (m :: ms)
               | Some (LOnce _), Some ms => Some ms
               | _, _ => None
@@ -72,7 +102,7 @@ Fixpoint mutexes_of (ls : list string) : option (list nat) :=
 Fixpoint onces_of (ls : list string) : list nat :=
   match ls with
   | [] => []
-  | l :: r => match lock_of_src l with Some (LOnce o) => o :: onces_of r | _ => onces_of r end
+  | x :: r => match lock_of_src 0 x with Some (LOnce o) => o :: onces_of r | _ => onces_of r end
   end.
 
 Definition subset (a b : list nat) : bool := forallb (fun x => existsb (Nat.eqb x) b) a.
@@ -86,17 +116,20 @@ Definition locks_are (hl : list lk) (ms : list nat) : bool :=
   match excl_set hl with Some s => same_set s ms | None => false end.
 
 Definition covered (rows : list op) (w : string * list string) : bool :=
-  match loc_of_src (fst w), mutexes_of (snd w) with
-  | Some l, Some ms =>
-    match ms, onces_of (snd w) with
-    | [], _ :: _ =>      (* under a Once only: a write of that initialiser *)
-      existsb (fun o => existsb (Nat.eqb l) (map fst (gm_obody o)) && existsb (fun r => calls_once o (code r)) rows)
-              (onces_of (snd w))
-    | _, _ =>            (* a Wr of a row with exactly these mutexes around it *)
-      existsb (fun r => existsb (fun x => match snd x with Wr l' => Nat.eqb l' l && locks_are (fst x) ms | Rd _ => false end)
-                                (annot [] (code r))) rows
+  match loc_of_src (fst w) with
+  | Some l =>
+    match mutexes_of l (snd w) with
+    | Some ms =>
+      (* inside a Once whose initialiser is stated to write this location, and the row goes through that Once *)
+      (if existsb (fun o => existsb (Nat.eqb l) (map fst (gm_obody o)) && existsb (fun r => calls_once o (code r)) rows)
+                  (onces_of (snd w)) then true
+       else
+      (* or a Wr of a row with exactly these mutexes around it *)
+       existsb (fun r => existsb (fun x => match snd x with Wr l' => Nat.eqb l' l && locks_are (fst x) ms | Rd _ => false end)
+                                 (annot [] (code r))) rows)
+    | None => false
     end
-  | _, _ => false
+  | None => false
   end.
 
 Definition covers : bool :=
@@ -104,17 +137,20 @@ Definition covers : bool :=
 
 (* the rows (and Once objects) whose writes must all be found in the source *)
 Definition tied_rows : list op :=
-  [config_clone; config_set_ticket_keys; lru_get; lru_put; sm4_set_iv; certpool_add; config_setup; x509_cert_fill; x509_register_hash].
-Definition tied_onces : list nat := [O_curve; O_cfg; O_sysroots].
+  [config_clone; config_set_ticket_keys; lru_get; lru_put; sm4_set_iv; certpool_add; config_setup; x509_cert_fill; x509_register_hash;
+   conn_handshake; conn_read; conn_write; conn_close; conn_state].
+Definition tied_onces : list nat := [O_curve; O_cfg; O_sysroots; O_conn_hs; O_suites; O_gmcas].
 
 Definition produced (p : string * list string -> bool) (r : op) : bool :=
   existsb (fun e => existsb (op_beq r) (rows_of_entry (fst e)) && existsb p (snd e)) gen_write_sets.
 
 Definition found_in_src : bool :=
   forallb (fun r => forallb (fun x => match snd x with
-                                      | Wr l => produced (fun w => match loc_of_src (fst w), mutexes_of (snd w) with
-                                                                   | Some l', Some ms => Nat.eqb l' l && locks_are (fst x) ms
-                                                                   | _, _ => false end) r
+                                      | Wr l => produced (fun w => match loc_of_src (fst w) with
+                                                                   | Some l' => match mutexes_of l' (snd w) with
+                                                                                | Some ms => Nat.eqb l' l && locks_are (fst x) ms
+                                                                                | None => false end
+                                                                   | None => false end) r
                                       | Rd _ => true end) (annot [] (code r))) tied_rows
   && forallb (fun o => forallb (fun l => existsb (fun e => existsb (fun w => match loc_of_src (fst w) with
                                                                             | Some l' => Nat.eqb l' l && existsb (Nat.eqb o) (onces_of (snd w))
@@ -128,3 +164,59 @@ Definition ex_w_key_elems : string * list string := ("gmtls.Config.sessionTicket
 Definition ex_w_keys_unlocked : string * list string := ("gmtls.Config.sessionTicketKeys", []).
 Definition ex_w_keys_locked : string * list string := ("gmtls.Config.sessionTicketKeys", ["gmtls.Config.mutex"]).
 Definition ex_w_sysroots : string * list string := ("x509.systemRoots", ["once:x509.once"]).
+
+Definition ex_entry_close := "gmtls.Conn.Close".
+Definition ex_entry_read := "gmtls.Conn.Read".
+Definition ex_entry_write := "gmtls.Conn.Write".
+Definition ex_conn_entries : list string :=
+  [ex_entry_close; ex_entry_read; ex_entry_write; "gmtls.Conn.Handshake"; "gmtls.Conn.CloseWrite"].
+Definition ex_has_entry (e : string) : bool := existsb (fun g => String.eqb (fst g) e) gen_write_sets.
+Definition ex_w_close_notify_locked : string * list string := ("gmtls.Conn.closeNotifySent", ["gmtls.Conn.out>gmtls.halfConn.Mutex"]).
+Definition ex_w_close_notify_unlocked : string * list string := ("gmtls.Conn.closeNotifySent", []).
+Definition ex_w_close_notify_wrong_lock : string * list string := ("gmtls.Conn.closeNotifySent", ["gmtls.Conn.in>gmtls.halfConn.Mutex"]).
+Definition ex_w_read_out_under_in : string * list string :=
+  ("gmtls.Conn.out>gmtls.halfConn.seq[]", ["gmtls.Conn.in>gmtls.halfConn.Mutex"]).
+Definition ex_w_read_out_under_both : string * list string :=
+  ("gmtls.Conn.out>gmtls.halfConn.seq[]", ["gmtls.Conn.in>gmtls.halfConn.Mutex"; "gmtls.Conn.out>gmtls.halfConn.Mutex"]).
+Definition ex_w_write_in_state : string * list string := ("gmtls.Conn.rawInput", ["gmtls.Conn.out>gmtls.halfConn.Mutex"]).
+Definition ex_w_vers_outside_handshake : string * list string := ("gmtls.Conn.vers", ["gmtls.Conn.in>gmtls.halfConn.Mutex"]).
+Definition ex_w_vers_in_handshake : string * list string :=
+  ("gmtls.Conn.vers", ["gmtls.Conn.handshakeMutex"; "gmtls.Conn.in>gmtls.halfConn.Mutex"; "once:gmtls.Conn.Handshake"]).
+Definition ex_w_status_plain : string * list string :=
+  ("gmtls.Conn.handshakeStatus", ["gmtls.Conn.handshakeMutex"; "gmtls.Conn.in>gmtls.halfConn.Mutex"; "once:gmtls.Conn.Handshake"]).
+Definition ex_w_active_plain : string * list string := ("gmtls.Conn.activeCall", []).
+Definition ex_w_active_atomic : string * list string := ("gmtls.Conn.activeCall", ["atomic"]).
+
+(* ---- what the translator could not attribute ----
+   Calls through function values and through interfaces without a summary.  Each line was looked at by hand:
+   the callee cannot reach the connection, the Config, the caches or a package variable of the analysed packages
+   except as noted. *)
+Definition allowed_unattributed : list string :=
+  [ (* application callbacks of the Config (documented as such in crypto/tls): run by the handshake, under
+       handshakeMutex and c.in; what they do to the application's own state is the application's business *)
+    "funcvalue:c.GetCertificate"; "funcvalue:c.GetKECertificate"; "funcvalue:c.config.GetClientCertificate";
+    "funcvalue:c.config.GetConfigForClient"; "funcvalue:c.config.VerifyPeerCertificate";
+    "funcvalue:t in (*gmtls.Config).time";            (* Config.Time or time.Now *)
+    "funcvalue:f in (x509.Hash).New";                 (* the constructor registered with RegisterHash *)
+    (* cipher-suite table entries and PRF selection: the functions stored there are the package's own constructors
+       (cipher_suites.go, prf.go), which build fresh objects; they are analysed as ordinary functions when called
+       directly *)
+    "funcvalue:h.prf"; "funcvalue:hs.suite.aead"; "funcvalue:hs.suite.cipher"; "funcvalue:hs.suite.ka"; "funcvalue:hs.suite.mac";
+    "funcvalue:prfForVersion(version, suite)";
+    (* record protection objects stored in a halfConn: per-direction objects, reached only under that direction's
+       lock set (the writes to the halfConn fields holding them are tied) *)
+    "iface:crypto/cipher.AEAD.NonceSize"; "iface:crypto/cipher.AEAD.Open"; "iface:crypto/cipher.AEAD.Overhead";
+    "iface:crypto/cipher.AEAD.Seal"; "iface:crypto/cipher.BlockMode.BlockSize"; "iface:crypto/cipher.BlockMode.CryptBlocks";
+    "iface:crypto/cipher.Stream.XORKeyStream"; "iface:gmtls.aead.Open"; "iface:gmtls.aead.Overhead"; "iface:gmtls.aead.Seal";
+    "iface:gmtls.cbcMode.BlockSize"; "iface:gmtls.cbcMode.CryptBlocks"; "iface:gmtls.constantTimeHash.Reset";
+    "iface:gmtls.constantTimeHash.Size"; "iface:gmtls.constantTimeHash.Write";
+    (* the transport and the standard library *)
+    "iface:error.Error"; "iface:io.Reader.Read"; "iface:io.Writer.Write"; "iface:io/fs.FileInfo.Name"; "iface:net.Addr.String";
+    "iface:net.Conn.Close"; "iface:net.Conn.LocalAddr"; "iface:net.Conn.RemoteAddr"; "iface:net.Conn.SetDeadline";
+    "iface:net.Conn.SetReadDeadline"; "iface:net.Conn.SetWriteDeadline"; "iface:net.Conn.Write"; "iface:net.Error.Temporary" ].
+
+(* renegotiation (client side, refused unless Config.Renegotiation is set; O_conn_hs is a Once only without it) *)
+Definition allowed_excluded : list string := ["(*gmtls.Conn).handleRenegotiation"].
+
+Definition str_subset (a b : list string) : bool := forallb (fun x => existsb (String.eqb x) b) a.
+Definition unattributed_ok : bool := str_subset gen_unattributed allowed_unattributed && str_subset gen_excluded allowed_excluded.
